@@ -9,7 +9,7 @@ from ..core import hx
 PROOF_MODULE = "Nlmodel.Proofs.C15"
 PROOF_FILES = ["Nlmodel/Proofs/C15.lean", "Nlmodel/Model/Object.lean"]
 THEOREM_FILE = PROOF_FILES[0]
-LEVEL_TEXT = 'Lean theorems over ALL 64-bit words / all in-range values about Model/Object, which uses the same shifts and masks as object.rs: integer, boolean, null, function-descriptor and pointer round trips, tag correctness, heap/immediate separation, injectivity. The model is tied to object.rs by comparing raw words, tags and decoded fields on the boundary lattice, boundary (offset,count) pairs, float bit patterns, strings, arrays, and equality over a cross product.'
+LEVEL_TEXT = 'Lean theorems over ALL 64-bit words / all in-range values about Model/Object, which uses the same shifts and masks as object.rs: integer, boolean, null, function-descriptor and pointer round trips, tag correctness, heap/immediate separation, injectivity. The model is tied to object.rs by comparing raw words, tags and decoded fields on the boundary lattice, boundary (offset,count) pairs, float bit patterns, strings, arrays, and equality over a cross product. SESSION 7: text at the byte level: decode (encode t) = t and bytewise equality of encodings = equality of texts, for every text (C15_text_bytes_roundtrip, C15_text_bytes_injective); the encoder is proved equal to core Lean String.utf8EncodeChar.'
 LEVEL_NOTE = 'Trusted: Lean kernel plus the bv_decide certificates (axioms `._native.bv_decide.ax_*`, listed in evidence); allocator returns 8-aligned blocks (hypothesis of C15_ptr_roundtrip); contents of heap boxes are Rust std String/Vec/f64.'
 TECHNIQUE = 'Lean 4 proof (bit-vector lemmas via bv_decide, Int bridging by omega) + raw-word correspondence'
 RULE = ("encode requests for every integer of the boundary lattice (+ random 61-bit), every (offset,count) "
